@@ -6,6 +6,7 @@
 //! `symtrace run <f64|f32>` reads `<shape>|<kind>|<pres>|name=value,...` lines and prints the
 //! native results (replay). `symtrace shapes` lists the available shapes.
 mod cases;
+mod drivers;
 mod fl;
 mod json;
 mod leaf;
